@@ -100,7 +100,8 @@ def check_render(profile, shown, report):
     # the width of the console is part of the environment: wide always, a narrow one (a split pane, a CI log column) for every 10th total
     widths = (250, 60) if sum(profile) % 10 == 0 else (250,)
     for fmt, mod, width in [(f, m, w) for w in widths for f, m in (("text", format_text), ("markdown", format_markdown))]:
-        text = harness.render(mod.print_summary, report, console_pos=0, width=width)
+        # a console whose stream is not UTF (LANG=C, a legacy code page) for totals that are multiples of 10 and land on the 20 % boundary region
+        text = harness.render(mod.print_summary, report, console_pos=0, width=width, ascii_stream=(width == 60))
         lines = [l for l in text.splitlines() if l.strip()]
         row = None
         for l in lines:
@@ -224,6 +225,9 @@ def family_dominant(dom_max, small_max):
                 yield tuple(prof)
 
 
+MAX_VIOLATIONS_PER_BLOCK = 60  # a block that is already this wrong is not explored further (a change that makes every further case slower must not hang the run)
+
+
 def _block_stub(block, agg):
     kind = block[0]
     if kind == "all":
@@ -245,6 +249,9 @@ def _block_stub(block, agg):
         for kd, sig, d in viol:
             agg.violation(kd, dict(sig, family=fam), {"profile": list(prof), "render": render, "stub": True, "prev": [list(first), list(prev)] if prev else None, "family": fam}, d)
         prev = prof
+        if sum(agg.vcount.values()) > MAX_VIOLATIONS_PER_BLOCK:
+            agg.extra["blocks_cut_short_after_many_violations"] += 1
+            return
 
 
 # ---------------------------------------------------------------------------------------
@@ -334,6 +341,9 @@ def _block(block, agg):
             agg.extra["rendered"] += 1
         for kind, sig, detail in viol:
             agg.violation(kind, sig, {"profile": list(prof), "render": render}, detail)
+        if sum(agg.vcount.values()) > MAX_VIOLATIONS_PER_BLOCK:
+            agg.extra["blocks_cut_short_after_many_violations"] += 1
+            return
 
 
 def replay(case):
